@@ -5,12 +5,32 @@ import json, subprocess
 
 BASELINE_CMD = json.load(open('/root/.vp/BASELINE.json'))['cmd']
 
+TECH = "contract-based deductive verification: WP-style VC generation over go/ssa of the real code, contracts as //@ comments in build-tagged files, obligations discharged by z3/cvc5"
+NOTE = "Trusted: go/ssa translation, the govc encoding, the SMT solvers, intrinsic axioms (copy/append/len/io.Writer), allocation succeeds, slices < 2^48 elements, append returns fresh memory, floats/maps/strings uninterpreted. Spec functions (zz_spec_verif.go) are the meaning of the formats. Abstracted calls, trusted contracts and undecided obligations are listed in the evidence file of each run."
+
 CLAIMED = {
- # id: (level text, level note, design ref, technique)
- "C05": ("Proof (SMT unsat for every generated obligation, all inputs, all loop iterations) that no index, slice, nil-dereference, division, make or explicit panic can occur and that every annotated loop terminates, in every function under contract of internal/container and mux (demux side). Byte strings, lengths and struct fields are fully symbolic; integers are exact bit-vectors. Functions outside the listed set are not covered; time/memory proportionality and goroutine deadlock are not decided.",
-         "Trusted: go/ssa translation, the govc encoding, the SMT solvers, intrinsic axioms (copy/append/len), allocation succeeds, slices < 2^48 elements, append returns fresh memory. Abstracted calls and assumptions are listed in the evidence file.",
-         "DESIGN.md §6 C05", "contract-based deductive verification: WP-style VC generation over go/ssa of the real code, contracts in //@ comments, obligations discharged by z3/cvc5"),
+ "C01": ("Partial, proof level for what is covered: for all 32-bit pixel values the encoder- and decoder-side VP8L pixel kernels (add/sub pixels, average2, select, clamped add-subtract full/half, the 14 predictor modes, cross-colour forward/inverse pixel functions, subtract-green/add-green loops with quantified loop contracts) equal specification functions written from the lossless bitstream specification, and each forward/inverse pair is inverse. Not covered: entropy coding, LZ77/colour-cache, transform selection, the image-level composition of the round trip.", NOTE, "DESIGN.md §6 C01"),
+ "C03": ("Partial, proof level for what is covered: the decoder's pixel kernels and the 14 spatial predictors of internal/dsp equal the specification's functions for all inputs; add-green inverse transform loop proved with quantified invariants and frame conditions. Not covered: prefix-code construction and decodeImageData functional correctness, 2-D transform loops (non-linear index arithmetic), assembly kernels.", NOTE, "DESIGN.md §6 C03"),
+ "C05": ("Proof (SMT unsat for every generated obligation, all inputs, all loop iterations) that no index, slice, nil-dereference, division, make or explicit panic can occur and that every annotated loop terminates, in every function under contract of internal/container, mux (demux side) and the animation decoder helpers. Byte strings, lengths and struct fields are fully symbolic; integers are exact bit-vectors. Functions outside the listed set (codec cores) are not covered; time/memory proportionality and goroutine deadlock are not decided.", NOTE, "DESIGN.md §6 C05"),
+ "C09": ("Partial, proof level for what is covered: alphaBlendNRGBA equals the specification's blend function for all 2^64 input pairs; the key-frame predicate is sound (a frame is treated as key frame only if it is first, or covers the canvas and overwrites, or the canvas is transparent after a covering/key-frame dispose); Reset re-establishes the initial decoder state field by field and clears both canvases (quantified); clearCanvas and Frame.Bounds contracts. Not covered: the 2-D compositing loops of compositeFrame/fillRect (non-linear index arithmetic is beyond the solvers; see DESIGN.md).", NOTE, "DESIGN.md §6 C09"),
+ "C13": ("Partial, proof level for what is covered: the portable Go pixel kernels (the ones every non-amd64/arm64 build runs) equal the specification functions for all inputs, so portable-vs-spec is decided; Not covered: assembly kernels and their Go wrappers (no Go verifier can read them), the GOARCH build matrix.", NOTE, "DESIGN.md §6 C13"),
+ "C15": ("Partial, proof level for what is covered: Encode hands the caller's options (Exact, Method) unchanged to the lossless encoder on both the metadata and the no-metadata path, for every options value (call-site contracts), so the embedded lossless bitstream cannot depend on the presence of metadata through the options. Not covered yet: byte-exact chunk layout of writeRIFFExtended, the mux/demux metadata path.", NOTE, "DESIGN.md §6 C15"),
+ "C16": ("Partial, proof level for what is covered: the colour model DecodeConfig announces equals the dynamic type decodeLossy/decodeFrame return, for every parsed frame (YCbCr exactly for lossy frames without alpha bytes); DecodeConfig's width/height are the parser's. The codec cores are summarised by trusted contracts (result non-nil on success). Not covered yet: header-parser triplet agreement, cross-view agreement of demuxer/animation reader.", NOTE, "DESIGN.md §6 C16"),
+ "C20": ("Partial, proof level for what is covered: validateConfig accepts only the documented integer ranges and rejects the listed violations; every resolve* helper equals its documented default function; at the call sites that configure the VP8 encoder and the alpha encoder every sentinel resolves to the documented default (Segments/Pass including 0), for all option values; nil options are replaced by DefaultOptions before use. Not covered: floating-point fields (NaN/Inf clauses), panics deep inside the encoders, byte-identical output (follows from equal configurations only under determinism).", NOTE, "DESIGN.md §6 C20"),
 }
+
+
+CLAIMED.update({
+ "C02": ("Partial, proof level for what is covered: chunk size arithmetic (header + payload + pad) and the simple-format RIFF writer of the muxer: the RIFF size field equals the bytes written minus 8, the file length is even, the image chunk carries its exact length and payload bytes (ghost byte log of the io.Writer); the ALPH header byte written by encodeAlphaInternal carries the filter actually applied and the final compression method. Not covered yet: encode.go writeRIFFExtended layout, VP8 frame header/partition table of assembleFrame, conformance of entropy-coded payloads, an independent decoder.", NOTE, "DESIGN.md §6 C02"),
+ "C04": ("Partial, proof level for what is covered: the per-segment loop-filter parameters (level with segment/mode deltas and clamp, interior limit by sharpness, edge limit, high-edge-variance threshold, inner-edge flag) computed by precomputeFilterStrengths equal specification functions written from RFC 6386 §9.6/§15.2 for every header value and all 4x2 slots. Not covered yet: inverse DCT/WHT kernels, loop-filter pixel functions, bool decoder, ALPH unfilter kernels, upsampling.", NOTE, "DESIGN.md §6 C04"),
+ "C06": ("Partial, proof level for what is covered: when the encoder switches the segment map off every macroblock is re-assigned to segment 0 (what the decoder will assume), for any number of macroblocks (quantified loop contract). Not covered yet: reconstruction kernel twins (iTransform vs transform), dequantisation agreement, token recorder vs coefficient parser.", NOTE, "DESIGN.md §6 C06"),
+ "C07": ("Partial, proof level for what is covered: encodeAlphaInternal stores, for a raw (uncompressed) payload, exactly the plane produced by the filter named in the header byte (also on the fallback from lossless to raw), the header's filter/method/pre-processing fields are the ones used, and the payload length is 1 + width*height. Not covered yet: filter/unfilter inverse pairs, the lossless alpha path, quantizeLevels (floating point).", NOTE, "DESIGN.md §6 C07"),
+ "C08": ("Partial, proof level for what is covered: after a key frame the encoder's previous-frame rectangle is the whole canvas; the blend-admissibility lemma (blending a frame pixel over the previous canvas pixel reproduces it when it is opaque or both are the same transparent pixel); pixels judged similar always have identical alpha. The predicate isLosslessBlendingPossible really uses is refuted by the solver for unchanged semi-transparent pixels: recorded as a known finding. Not covered: sub-frame rectangle search, frame codec round trip, timing fields.", NOTE, "DESIGN.md §6 C08"),
+ "C11": ("Partial, proof level for what is covered: acquireDecoder hands out a lossy decoder whose every field is either zero (proved field by field; a coverage obligation fails when a struct field is not classified) or scratch that a named phase rewrites; for the loop-filter strength table the rewrite of all 8 slots is itself proved. Not covered: the other scratch fields' overwrite proofs (listed as assumptions), encoder pools, lossless pools.", NOTE, "DESIGN.md §6 C11"),
+ "C14": ("Partial, proof level for what is covered: chunkTotalSize/frameSubChunksSize equal the sum of individually padded chunks; writeDataChunk emits FourCC, little-endian length, the payload bytes and a zero pad byte and leaves earlier output untouched (quantified, ghost byte log); writeANMFChunk's size field equals the payload bytes written after it; assembleSimple's RIFF layout; splitAlphaAndBitstream's ALPH-prefix convention; demux-side parsers are panic-free and terminate. Not covered yet: assembleExtended as a whole, mux->demux field round trip lemmas.", NOTE, "DESIGN.md §6 C14"),
+ "C17": ("Partial, proof level for what is covered (container level): a simple-format file is accepted only if the whole padded image chunk lies inside the buffer and the frame payload is exactly the declared byte range; a non-animated extended file is accepted only with an image frame (the zero-frame prefix defect was found by this obligation and repaired); chunk header reads are exact. Not covered: the bit readers' end-of-stream discipline inside the codecs.", NOTE, "DESIGN.md §6 C17"),
+ "C18": ("Partial, proof level for what is covered: pixels the animation encoder treats as similar (and therefore blends instead of overwriting) always have identical alpha, for all pixel values and thresholds; the ALPH-prefix convention of frame payloads handed to the muxer (splitAlphaAndBitstream). Not covered: that the lossy frame encoder attaches the alpha plane at all (encodeFrameForAnimation), VP8 colour.", NOTE, "DESIGN.md §6 C18"),
+})
 
 NOT_APPLICABLE = {
  "C10": "quantifies over goroutine interleavings; sequential function-by-function contracts and the available solvers cannot express or decide schedules, and no Go concurrency verifier is installed",
@@ -23,7 +43,7 @@ def main():
     for pid in ALL:
         if pid not in CLAIMED:
             continue
-        text, note, ref, tech = CLAIMED[pid]
+        text, note, ref = CLAIMED[pid]; tech = TECH
         checks.append({
             "property_id": pid,
             "quick_cmd": f"bin/govc check -property {pid} -tier quick",
